@@ -50,7 +50,6 @@ unsafe fn arm_entry(thumb: bool, misaligned: bool) {
         k += 1;
     }
     assert!(sim::all_clean(), "VERIF[C17]: bytes written during installation are not covered by a later flush");
-    assert!(sim::S.N_MMAP == 0 && sim::S.N_MUNMAP == 0, "VERIF[C12]: 32-bit ARM needs no trampoline but mmap/munmap was called");
     kani::cover!(t & 1 == 1, "COVER: fake in Thumb state");
     kani::cover!(t & 1 == 0, "COVER: fake in ARM state");
     kani::cover!((f & 4095) > 4096 - 12, "COVER: entry patch straddles a page boundary");
@@ -83,6 +82,7 @@ unsafe fn arm_entry(thumb: bool, misaligned: bool) {
         k += 1;
     }
     assert!(sim::all_clean(), "VERIF[C17]: restored bytes are not covered by a later flush");
+    assert!(sim::live_jits() == 0, "VERIF[C12]: a mapping created by the installation is still live after drop");
 }
 
 macro_rules! arm_harness {
